@@ -34,6 +34,7 @@ type throwEvent struct {
 	idGenerator     id.IGenerator
 	mch             chan imessage
 	activated       atomic.Bool
+	running         atomic.Bool
 	awaitingActions []chan IAction
 	once            sync.Once
 	satisfier       *logic.ThrowEventSatisfier
@@ -88,6 +89,12 @@ func (evt *throwEvent) run(ctx context.Context, sender tracing.ISenderHandle) {
 }
 
 func (evt *throwEvent) ConsumeEvent(ev event.IEvent) (result event.ConsumptionResult, err error) {
+	if !evt.running.Load() {
+		// the node has not been reached or triggered: its loop is not running and nobody
+		// would drain its inbox, so the event is dropped instead of blocking the caller
+		result = event.Consumed
+		return
+	}
 	evt.mch <- eventMessage{event: ev}
 	result = event.Consumed
 	return
@@ -102,6 +109,7 @@ func (evt *throwEvent) flow(ctx context.Context) {
 func (evt *throwEvent) Trigger(ctx context.Context) {
 	evt.once.Do(func() {
 		sender := evt.tracer.RegisterSender()
+		evt.running.Store(true)
 		go evt.run(ctx, sender)
 	})
 
@@ -111,6 +119,7 @@ func (evt *throwEvent) Trigger(ctx context.Context) {
 func (evt *throwEvent) NextAction(ctx context.Context, flow Flow) chan IAction {
 	evt.once.Do(func() {
 		sender := evt.tracer.RegisterSender()
+		evt.running.Store(true)
 		go evt.run(ctx, sender)
 	})
 
